@@ -267,7 +267,15 @@ def check_program_handles(case) -> list[Fail]:
     R, evr = structure(case)
     # a node whose operation object was given to the builder again later (for other wires) no longer has the
     # operation it had when its handle was made (recorded finding under C01): only the latest user is judged
-    reused_later = {ev["same_as"] for ev in events if ev.get("same_as") is not None and events[ev["same_as"]]["op"] != ev["op"]}
+    groups: dict = {}
+    for i_, ev in enumerate(events):
+        if ev.get("e") == "op":
+            root_ev = ev["same_as"] if ev.get("same_as") is not None else i_
+            groups.setdefault(root_ev, []).append(i_)
+    reused_later = set()
+    for members in groups.values():
+        if len(members) > 1 and events[members[0]]["op"]["k"] in ("Noop", "MakeTuple", "UnpackTuple", "CallIndirect"):
+            reused_later |= set(members[:-1])  # all users of that (re-completed) object but the last one
     for idx, handle, op in r.handles:
         if idx in reused_later:
             continue
